@@ -606,6 +606,43 @@ Proof.
   reflexivity.
 Qed.
 
+(* the exception needs BOTH tests (type_entry.rs:1732-1733, structs.rs:403-404): a map whose key
+   type is anything but the plain String entry is spelled with the configured map type and its
+   key type, whatever the value type (in particular JsonValue) *)
+Lemma constrained_key_not_json_map : forall T k v dk,
+  get_det T k = Some dk -> dk <> DString -> is_json_map T k v = false.
+Proof. intros T k v dk Hk Hn. unfold is_json_map. rewrite Hk. destruct dk; try reflexivity. congruence. Qed.
+
+Theorem map_constrained_keys_use_map_type : forall T f k v dk a b,
+  get_det T k = Some dk -> dk <> DString -> get_det T v <> None ->
+  type_ident T f k = Some a -> type_ident T f v = Some b ->
+  (forall i, get_det T i = Some (DMap k v) ->
+     type_ident T (S f) i = Some (map_path T ++ u "<" ++ a ++ u "," ++ b ++ u ">")) /\
+  (forall p, p_state p = POptional -> get_det T (p_ty p) = Some (DMap k v) ->
+     skip_path T p = map_path T ++ u "::is_empty").
+Proof.
+  intros T f k v dk a b Hk Hn Hv Ha Hb.
+  assert (Hj := constrained_key_not_json_map T k v dk Hk Hn). split.
+  - intros i Hi. apply (map_type_everywhere T f k v a b); auto. congruence.
+  - intros p Hs Hd. unfold skip_path, unbox. rewrite Hs, Hd, Hj. reflexivity.
+Qed.
+
+(* serde_json::Map is produced ONLY for key = String and value = JsonValue *)
+Theorem json_map_only_string_any : forall T f i k v,
+  get_det T i = Some (DMap k v) -> type_ident T (S f) i = Some json_map_ty ->
+  (get_det T k = Some DString /\ get_det T v = Some DJsonValue) \/
+  (exists a b, type_ident T f k = Some a /\ type_ident T f v = Some b /\
+               map_path T ++ u "<" ++ a ++ u "," ++ b ++ u ">" = json_map_ty).
+Proof.
+  intros T f i k v Hi H. cbn [type_ident] in H. rewrite Hi in H. unfold is_json_map in H.
+  destruct (get_det T k) as [dk|] eqn:Ek; [|discriminate H].
+  destruct (get_det T v) as [dv|] eqn:Ev; [|destruct dk; discriminate H].
+  destruct dk; destruct dv; try (left; split; reflexivity);
+    right; destruct (type_ident T f k) as [a|]; try discriminate H;
+    destruct (type_ident T f v) as [b|]; try discriminate H;
+    exists a, b; repeat split; congruence.
+Qed.
+
 Theorem map_is_empty_path : forall T p k v,
   p_state p = POptional -> get_det T (p_ty p) = Some (DMap k v) ->
   skip_path T p = if is_json_map T k v then u "::serde_json::Map::is_empty" else map_path T ++ u "::is_empty".
